@@ -106,5 +106,89 @@ func c09Regressions(w *emit.Writer) error {
 		}
 		report("uuid in upper case", failure)
 	}
+	return c09Names(w)
+}
+
+// c09Names: a uuid-typed field may hold the name of a row that the same transaction inserts. A name is text: it goes
+// through the row and back with its spelling, in every position of every uuid column kind (names that differ only in
+// case stay apart).
+func c09Names(w *emit.Writer) error {
+	sc := c09Schema()
+	db, err := sc.Build()
+	if err != nil {
+		return err
+	}
+	names := []val.Atom{val.Uuid("Port_A"), val.Uuid("rowX1"), val.Uuid("row"), val.Uuid("Row"), val.Uuid("lower_only")}
+	failure := ""
+	for _, c := range sc.Tables[0].Cols {
+		if len(c.Enum) > 0 || (c.KT != 'u' && c.VT != 'u') {
+			continue
+		}
+		var vals []val.Val
+		switch c.K {
+		case 'a':
+			vals = []val.Val{val.VA(names[0]), val.VA(names[4])}
+		case 'o':
+			vals = []val.Val{val.VSome(names[1])}
+		case 's':
+			vals = []val.Val{val.Val{K: 's', Set: []val.Atom{names[0]}}.Canon(), val.Val{K: 's', Set: []val.Atom{names[2], names[3], names[1]}}.Canon()}
+		case 'm':
+			ot := c.VT
+			if c.KT != 'u' {
+				ot = c.KT
+			}
+			if c.KT == 'u' && c.VT == 'u' {
+				continue
+			}
+			other := func(i int) val.Atom { return gen.AtomN(ot, i) }
+			var m1, m2 val.Val
+			m1.K, m2.K = 'm', 'm'
+			if c.KT == 'u' {
+				m1.Map = [][2]val.Atom{{names[0], other(1)}}
+				m2.Map = [][2]val.Atom{{names[2], other(1)}, {names[3], other(2)}}
+			} else {
+				m1.Map = [][2]val.Atom{{other(1), names[0]}}
+				m2.Map = [][2]val.Atom{{other(1), names[2]}, {other(2), names[3]}}
+			}
+			vals = []val.Val{m1.Canon(), m2.Canon()}
+		}
+		for _, v := range vals {
+			_, class, msg := guarded(func() (interface{}, error) {
+				m := db.Make("T", gen.UUIDn(1), map[string]val.Val{c.Name: v})
+				info, err := db.Model.NewModelInfo(m)
+				if err != nil {
+					return nil, err
+				}
+				row, err := db.Model.Mapper.NewRow(info)
+				if err != nil {
+					return nil, fmt.Errorf("NewRow: %v", err)
+				}
+				b, err := json.Marshal(row)
+				if err != nil {
+					return nil, fmt.Errorf("marshal: %v", err)
+				}
+				var back ovsdb.Row
+				if err := json.Unmarshal(b, &back); err != nil {
+					return nil, fmt.Errorf("row decoding of %s: %v", b, err)
+				}
+				fresh := db.New("T")
+				finfo, _ := db.Model.NewModelInfo(fresh)
+				if err := db.Model.Mapper.GetRowData(&back, finfo); err != nil {
+					return nil, fmt.Errorf("GetRowData of %s: %v", b, err)
+				}
+				if got := db.Get(fresh, "T", c.Name); !got.Equal(v) {
+					return nil, fmt.Errorf("comes back as %s through %s", got.Key(), b)
+				}
+				return nil, nil
+			})
+			w.Count("names:" + string(c.K))
+			if class != 0 && failure == "" {
+				failure = fmt.Sprintf("column %s (%s) holding the row name(s) %s: %s", c.Name, c.SchemaJSON(), v.Key(), msg)
+			}
+		}
+	}
+	w.Count("regression:names in uuid positions")
+	w.Add(emit.Case{Term: "CGet [] [] [] 0%nat []", JSON: map[string]interface{}{"regression": "names in uuid positions"},
+		Key: "regression:names in uuid positions", Nontrivial: true, Class: "regression", Oracle: failure})
 	return nil
 }
